@@ -1,3 +1,4 @@
+import AmrK.Names
 import AmrK.WritersSizes
 /-! # C11 — chef writes recipe(box) under the right names with true min/max
 
@@ -24,5 +25,12 @@ example :
     ((chef [⟨"a", 100, 8, 80, 80, [1, 2]⟩, ⟨"a", 300, 8, 80, 80, [3, 4]⟩, ⟨"a", 0, 4, 80, 80, [5, 6]⟩] 2 [1]
         (fun i => [100 + (i : Int)])).map (·.found))
       = [some (0, [2, 100]), some (1, [4, 101]), some (2, [6, 102])] := by decide +kernel
+
+/-- **which fields chef writes**: the kept fields that exist, then the recipe's names (`Names.chef`,
+    compared as a set with the field list of every real output; the property leaves the order open) -/
+theorem field_rule (names kept new : List String) :
+    (Names.chef names kept new).take (kept.filter (names.contains ·)).length = kept.filter (names.contains ·) ∧
+    (Names.chef names kept new).drop (kept.filter (names.contains ·)).length = new :=
+  Names.chef_split names kept new
 
 end C11
